@@ -9,6 +9,7 @@ from ..caseval import Ev
 from .lie_common import lib_call
 
 SHARDS = {"quick": 16, "thorough": 16}
+REQUIRED_REACH = ['rk4', 'sqrt_covariance_predict', 'sqrt_correct', 'ldl_symmetric_decomposition', 'udu_symmetric_decomposition']
 RULE = ("n in 1..8, m in 1..4 (thorough: n up to 10, m up to 5): random invertible lower-triangular W (condition number up to 1e6, "
         "negative diagonal entries allowed), arbitrary F, Q = A A^T incl. rank-deficient and zero, H incl. zero rows and repeated rows, "
         "lower-triangular invertible R factors; SPD matrices with condition number up to 1e6 for LDL/UDU; RK4 on cubic-in-t fields "
